@@ -13,6 +13,7 @@ import (
 	"go/token"
 	"go/types"
 	"reflect"
+	"regexp"
 	"sort"
 	"strings"
 
@@ -135,8 +136,7 @@ func enumeratePaths(fn *ssa.Function) (paths []*BTPath, ok bool) {
 			paths = append(paths, &BTPath{Fn: fn, Blocks: append([]*ssa.BasicBlock(nil), trail...), State: st, Panic: true, Calls: append([]btCall(nil), calls...)})
 		case *ssa.If:
 			for i, truth := range []bool{true, false} {
-				ns := st.clone()
-				if refine(ns, x.Cond, truth) {
+				for _, ns := range refineAll(st, x.Cond, truth, trail, 0) {
 					walk(b.Succs[i], ns, trail, visits, calls)
 				}
 			}
@@ -152,8 +152,187 @@ func enumeratePaths(fn *ssa.Function) (paths []*BTPath, ok bool) {
 	return
 }
 
-// refine adds the fact cond==truth to st; returns false if infeasible.
+// resolveOnTrail replaces a phi (possibly under conversions) by the value it
+// takes on the path walked so far.
+func resolveOnTrail(v ssa.Value, trail []*ssa.BasicBlock) ssa.Value {
+	for i := 0; i < 4; i++ {
+		switch x := v.(type) {
+		case *ssa.Phi:
+			nv := phiValueOnPath(x, trail)
+			if nv == ssa.Value(x) {
+				return v
+			}
+			v = nv
+		default:
+			return v
+		}
+	}
+	return v
+}
+
+// pureBoolHelper reports whether fn is a small module function returning a
+// single bool that only inspects its arguments (no stores, no calls other
+// than interface accessors such as reflect.Type methods, builtins and other
+// pure helpers).
+func pureBoolHelper(fn *ssa.Function, depth int) bool {
+	if fn == nil || fn.Blocks == nil || depth > 2 || len(fn.Blocks) > 24 {
+		return false
+	}
+	res := fn.Signature.Results()
+	if res.Len() != 1 {
+		return false
+	}
+	if b, ok := res.At(0).Type().Underlying().(*types.Basic); !ok || b.Kind() != types.Bool {
+		return false
+	}
+	for _, b := range fn.Blocks {
+		for _, in := range b.Instrs {
+			switch x := in.(type) {
+			case *ssa.Store, *ssa.MapUpdate, *ssa.Send, *ssa.Go, *ssa.Defer, *ssa.Panic:
+				return false
+			case *ssa.Call:
+				if _, isB := x.Call.Value.(*ssa.Builtin); isB {
+					continue
+				}
+				if x.Call.IsInvoke() {
+					if isReflectType(x.Call.Value.Type()) {
+						continue
+					}
+					return false
+				}
+				sc := x.Call.StaticCallee()
+				if sc == nil || !pureBoolHelper(sc, depth+1) {
+					// allow well-known pure stdlib calls
+					if sc != nil && sc.Pkg != nil {
+						switch sc.Pkg.Pkg.Path() {
+						case "strings", "bytes", "unicode", "reflect":
+							continue
+						}
+					}
+					return false
+				}
+			}
+		}
+	}
+	return true
+}
+
+var paramWord = map[string]*regexp.Regexp{}
+
+// translate rewrites an access path of the callee into the caller's terms by
+// replacing each parameter name with the path of the corresponding argument.
+func translatePath(p string, fn *ssa.Function, args []ssa.Value) (string, bool) {
+	for i, prm := range fn.Params {
+		if i >= len(args) {
+			break
+		}
+		re := paramWord[prm.Name()]
+		if re == nil {
+			re = regexp.MustCompile(`(^|[^A-Za-z0-9_.>])` + regexp.QuoteMeta(prm.Name()) + `($|[^A-Za-z0-9_])`)
+			paramWord[prm.Name()] = re
+		}
+		if !re.MatchString(p) {
+			continue
+		}
+		ap := accessPath(args[i])
+		if ap == "" {
+			return "", false
+		}
+		// two passes cover adjacent (overlapping) matches; the replacement may
+		// itself mention the parameter's name, so never loop to a fixpoint
+		const mark = "\x00P\x00"
+		for k := 0; k < 2; k++ {
+			p = re.ReplaceAllString(p, "${1}"+mark+"${2}")
+		}
+		p = strings.ReplaceAll(p, mark, ap)
+	}
+	return p, true
+}
+
+// refineAll adds the fact cond==truth to st and returns the resulting
+// states (several when the condition is a call of a pure boolean helper whose
+// paths are spliced in; none if infeasible).
+func refineAll(st *pathState, cond ssa.Value, truth bool, trail []*ssa.BasicBlock, depth int) []*pathState {
+	for {
+		if u, ok := cond.(*ssa.UnOp); ok && u.Op == token.NOT {
+			cond, truth = u.X, !truth
+			continue
+		}
+		break
+	}
+	cond = resolveOnTrail(cond, trail)
+	if call, ok := cond.(*ssa.Call); ok && depth < 2 {
+		if sc := call.Call.StaticCallee(); sc != nil && pureBoolHelper(sc, 0) {
+			sub, okP := enumeratePaths(sc)
+			if okP {
+				var out []*pathState
+				for _, sp := range sub {
+					if sp.Ret == nil {
+						continue
+					}
+					rv := resolvedResults(sp.Ret)[0]
+					if phi, isPhi := rv.(*ssa.Phi); isPhi {
+						rv = phiValueOnPath(phi, sp.Blocks)
+					}
+					states := []*pathState{sp.State}
+					if k, isK := rv.(*ssa.Const); isK && k.Value != nil && k.Value.Kind() == constant.Bool {
+						if constant.BoolVal(k.Value) != truth {
+							continue
+						}
+					} else {
+						states = refineAll(sp.State.clone(), rv, truth, sp.Blocks, depth+1)
+					}
+					for _, cs := range states {
+						ns := st.clone()
+						feasible := true
+						for p, v := range cs.eq {
+							tp, okT := translatePath(p, sc, call.Call.Args)
+							if !okT || !ns.assume(tp, true, v) {
+								feasible = okT && false
+								if !okT {
+									feasible = true // untranslatable fact: drop it
+								}
+								if !feasible {
+									break
+								}
+							}
+						}
+						if !feasible {
+							continue
+						}
+						for p, m := range cs.ne {
+							tp, okT := translatePath(p, sc, call.Call.Args)
+							if !okT {
+								continue
+							}
+							for v := range m {
+								if !ns.assume(tp, false, v) {
+									feasible = false
+								}
+							}
+						}
+						if feasible {
+							out = append(out, ns)
+						}
+					}
+				}
+				return out
+			}
+		}
+	}
+	ns := st.clone()
+	if refineOne(ns, cond, truth, trail) {
+		return []*pathState{ns}
+	}
+	return nil
+}
+
 func refine(st *pathState, cond ssa.Value, truth bool) bool {
+	return refineOne(st, cond, truth, nil)
+}
+
+// refineOne adds the fact cond==truth to st; returns false if infeasible.
+func refineOne(st *pathState, cond ssa.Value, truth bool, trail []*ssa.BasicBlock) bool {
 	for {
 		if u, ok := cond.(*ssa.UnOp); ok && u.Op == token.NOT {
 			cond, truth = u.X, !truth
@@ -166,7 +345,7 @@ func refine(st *pathState, cond ssa.Value, truth bool) bool {
 	}
 	if b, ok := cond.(*ssa.BinOp); ok && (b.Op == token.EQL || b.Op == token.NEQ) {
 		eq := (b.Op == token.EQL) == truth
-		x, y := b.X, b.Y
+		x, y := resolveOnTrail(b.X, trail), resolveOnTrail(b.Y, trail)
 		if _, isC := x.(*ssa.Const); isC {
 			x, y = y, x
 		}
